@@ -12,7 +12,8 @@ if status == "fixed":
 if len(sys.argv) > 7:
     dst = os.path.join("replays", "regress", prop, sys.argv[7])
     os.makedirs(os.path.join(HERE, os.path.dirname(dst)), exist_ok=True)
-    shutil.copy(sys.argv[6], os.path.join(HERE, dst))
+    if os.path.realpath(sys.argv[6]) != os.path.realpath(os.path.join(HERE, dst)):
+        shutil.copy(sys.argv[6], os.path.join(HERE, dst))
     entry["replay"] = dst
 # one entry per (signature, commit): the same signature may be the symptom of several repaired defects
 doc["findings"] = [f for f in doc["findings"] if (f["signature"], f.get("commit")) != (sig, entry.get("commit"))] + [entry]
